@@ -117,7 +117,8 @@ ChainVecs ==
                        [fn |-> "NewI2PString", in |-> Fill(255, 3)], [fn |-> "ToI2PString", in |-> << 98 >>], [fn |-> "NewI2PString", in |-> << 97 >>] >>],
         [op |-> "Chain", fn |-> "Date", kind |-> "date", cls |-> "dates",
           items |-> << [ms |-> << 0, 0, 0, 0, 0, 0, 0, 1 >>], [ms |-> << 0, 0, 1, 138, 207, 146, 32, 0 >>], [ms |-> << 0, 0, 0, 0, 0, 0, 0, 2 >>], [ms |-> Zeros(8)] >>] >>
-Vecs == ChainVecs \o EncRanges \o EncInts \o DecChunkVecs \o DecInts \o IntFromBytesVecs \o ReadInts \o FixedVecs
+CONSTANT Part      \* "all" | "dates" (C15 replays the date constructors and accessors only)
+Vecs == IF Part = "dates" THEN DateVecs ELSE ChainVecs \o EncRanges \o EncInts \o DecChunkVecs \o DecInts \o IntFromBytesVecs \o ReadInts \o FixedVecs
         \o DateVecs \o NewStrs \o StrSweeps \o StrGets \o StrFromBytesVecs \o FixedSweeps
 
 VARIABLE done
